@@ -67,11 +67,12 @@ FORMS = {"POWERON": (0,), "POWEROFF": (0,), "RXTUNE": (1,), "TXTUNE": (1,), "MEA
          "FAKE_DROP": (1, 2), "FAKE_TRXC_DELAY": (1,)}
 
 
-def has_undocumented_form(line):
+def has_undocumented_form(line, upto=None):
     """does the history send a KNOWN command verb with a number of arguments no documented form of it has (e.g. `RFMUTE 1 2 3`)?
     How such a datagram is answered is C05's subject (and C14's: no crash); the other properties of the world model
     quantify over the documented forms, so for them such a history is outside the domain (still run and compared: evidence)"""
-    for op in line.split(" | ", 1)[-1].split(" ; "):
+    ops = line.split(" | ", 1)[-1].split(" ; ")
+    for op in (ops if upto is None else ops[:upto + 1]):
         t = op.split()
         if len(t) == 4 and t[0] == "C":
             try:
@@ -85,6 +86,16 @@ def has_undocumented_form(line):
             if req[0] in FORMS and (len(req) - 1) not in FORMS[req[0]]:
                 return True
     return False
+
+
+def documented_forms_until_divergence(line, impl_answer, model_answer):
+    """inside the domain of the world properties other than C05/C14: no command of an undocumented form was sent up to (and
+    including) the first operation on which code and model differ - what comes later cannot have caused the difference"""
+    try:
+        idx = first_diff(line, impl_answer, model_answer).get("op_index")
+    except Exception:
+        idx = None
+    return not has_undocumented_form(line, upto=idx if isinstance(idx, int) else None)
 
 
 def correspond(run, corr, profiles, n_quick, n_thorough, in_domain=None):
@@ -110,7 +121,7 @@ def correspond(run, corr, profiles, n_quick, n_thorough, in_domain=None):
         nops = l.count(" ; ") + 1
         corr.count(hash(l), "histories")
         corr.distribution["operations"] = corr.distribution.get("operations", 0) + nops
-        if a != b and in_domain is not None and not in_domain(l):
+        if a != b and in_domain is not None and not in_domain(l, a, b):
             corr.outside += 1
             if len(corr.outside_samples) < 5:
                 corr.outside_samples.append({"request": l[:300], "impl": a[:200], "model": b[:200]})
